@@ -91,11 +91,15 @@ impl CosetTable {
     }
 
     fn compact(&self) -> CosetTable {
+        // number the classes in the order of their first members, so that the
+        // class of row 0 (the subgroup itself) stays row 0
+        let unset = self.len();
         let mut n = 0;
-        let mut old_to_new = vec![0; self.len()];
+        let mut old_to_new = vec![unset; self.len()];
         for k in 0..self.len() {
-            if self.canon(k) == k {
-                old_to_new[k] = n;
+            let c = self.canon(k);
+            if old_to_new[c] == unset {
+                old_to_new[c] = n;
                 n += 1;
             }
         }
